@@ -276,6 +276,50 @@ func Mutations(s *Schema, d *Doc) []*Mutation {
 						break
 					}
 				}
+				// aliases at the subscription root: the rule is about the FIELD (an introspection field stays one under any alias,
+				// an ordinary field stays ordinary under an alias that starts with two underscores), directly and through fragments
+				intro := func(alias string) *Selection {
+					x := NewField("__typename", nil)
+					x.Alias = alias
+					return x
+				}
+				for _, al := range []string{"kind", "__k"} {
+					al := al
+					what := "aliased __typename"
+					if al == "__k" {
+						what = "__typename under an alias that starts with two underscores"
+					}
+					add(RSubscriptionRoot, what+" as only root field", false, what+" is the only root field", []int{id}, func(d *Doc, ix *Index) {
+						ix.Op[id].Sel = []*Selection{intro(al)}
+						d.GC()
+					})
+					add(RSubscriptionRoot, what+" as only root field, through a named fragment", false, what+" is the only root field, reached through a fragment on the subscription type", []int{id}, func(d *Doc, ix *Index) {
+						ix.Op[id].Sel = []*Selection{NewSpread("SI1")}
+						d.Frags = append(d.Frags, &Fragment{Name: "SI1", TypeCond: root.Name, Sel: []*Selection{intro(al)}})
+						d.GC()
+					})
+					add(RSubscriptionRoot, what+" as only root field, through an inline fragment", false, what+" is the only root field, reached through a fragment on the subscription type", []int{id}, func(d *Doc, ix *Index) {
+						ix.Op[id].Sel = []*Selection{NewInline(root.Name, intro(al))}
+						d.GC()
+					})
+				}
+				if len(c.Op.Sel) == 1 && c.Op.Sel[0].Kind == KField {
+					rootID := c.Op.Sel[0].ID
+					add(RSubscriptionRoot, "ordinary root field under an alias that starts with two underscores (control)", true, "ordinary root field under an alias that starts with two underscores", []int{id, rootID}, func(d *Doc, ix *Index) {
+						ix.Sel[rootID].Alias = "__x"
+					})
+					add(RSubscriptionRoot, "ordinary root field under an alias that starts with two underscores, through a named fragment (control)", true, "ordinary root field under an alias that starts with two underscores, reached through a fragment on the subscription type", []int{id, rootID}, func(d *Doc, ix *Index) {
+						f := ix.Sel[rootID]
+						f.Alias = "__x"
+						ix.Op[id].Sel = []*Selection{NewSpread("SI1")}
+						d.Frags = append(d.Frags, &Fragment{Name: "SI1", TypeCond: root.Name, Sel: []*Selection{f}})
+					})
+					add(RSubscriptionRoot, "ordinary root field under an alias that starts with two underscores, through an inline fragment (control)", true, "ordinary root field under an alias that starts with two underscores, reached through a fragment on the subscription type", []int{id, rootID}, func(d *Doc, ix *Index) {
+						f := ix.Sel[rootID]
+						f.Alias = "__x"
+						ix.Op[id].Sel = []*Selection{NewInline(root.Name, f)}
+					})
+				}
 				add(RSubscriptionRoot, "__typename as only root field", false, "__typename is the only root field", []int{id}, func(d *Doc, ix *Index) {
 					o := ix.Op[id]
 					o.Sel = []*Selection{NewField("__typename", nil)}
@@ -1111,6 +1155,7 @@ func (s *Schema) mergeMutations(parent string, ins func(rule, op string, valid b
 			}
 		}
 	}
+	s.threeWayMutations(parent, ins)
 }
 
 // RequiredArgsExcept is RequiredArgs without the named argument.
@@ -1159,3 +1204,171 @@ func (s *Schema) twoLiterals(t *gast.Type) (*Value, *Value) {
 }
 
 func stripAllNonNull(t string) string { return strings.ReplaceAll(t, "!", "") }
+
+// threeWayMutations: three (and four) leaf selections with one response name at
+// one path, spread over sibling object type conditions and the enclosing
+// interface, in EVERY order. Two of them are identical (on object type ty and on
+// the interface), the third - on the sibling object type tx - selects a different
+// field of the same type, or the same field with another argument value: legal
+// against the ty branch (tx and ty never overlap), a conflict with the
+// interface-level selection (a tx object has both).
+func (s *Schema) threeWayMutations(parent string, ins func(rule, op string, valid bool, class string, mk func() ([]*Selection, []*Fragment))) {
+	pdef := s.S.Types[parent]
+	if pdef.Kind != gast.Interface {
+		return
+	}
+	poss := s.Possible(parent)
+	if len(poss) < 2 {
+		return
+	}
+	plain := func(f *gast.FieldDefinition) bool {
+		return !s.IsComposite(f.Type) && len(s.RequiredArgs(f.Arguments)) == 0
+	}
+	sel := func(f *gast.FieldDefinition, args []*Arg) func() *Selection {
+		return func() *Selection {
+			var as []*Arg
+			for _, a := range args {
+				as = append(as, NewArg(a.Name, a.Value.Fresh()))
+			}
+			x := NewField(f.Name, as)
+			x.Alias = "cz"
+			return x
+		}
+	}
+	type variant struct {
+		what       string
+		same, diff func() *Selection
+		tx         string   // object type that carries the different selection
+		others     []string // other possible types on which the identical selection is valid
+	}
+	var vs []variant
+	othersFor := func(g *gast.FieldDefinition, tx string) []string {
+		var out []string
+		for _, ty := range poss {
+			if gy := s.Field(ty, g.Name); ty != tx && gy != nil && fieldSig(gy) == fieldSig(g) {
+				out = append(out, ty)
+			}
+		}
+		return out
+	}
+	// a different field of the same type
+search:
+	for _, g := range s.Fields(parent) {
+		if !plain(g) {
+			continue
+		}
+		for _, tx := range poss {
+			gx := s.Field(tx, g.Name)
+			if gx == nil || fieldSig(gx) != fieldSig(g) {
+				continue
+			}
+			for _, h := range s.Fields(tx) {
+				if h.Name == g.Name || !plain(h) || h.Type.String() != g.Type.String() {
+					continue
+				}
+				if o := othersFor(g, tx); len(o) > 0 {
+					vs = append(vs, variant{"a different field of the same type", sel(g, nil), sel(h, nil), tx, o})
+					break search
+				}
+			}
+		}
+	}
+	// the same field with another argument value
+	for _, g := range s.Fields(parent) {
+		if s.IsComposite(g.Type) || len(g.Arguments) == 0 {
+			continue
+		}
+		var arg *gast.ArgumentDefinition
+		var w1, w2 *Value
+		for _, a := range g.Arguments {
+			if x, y := s.twoLiterals(a.Type); x != nil {
+				arg, w1, w2 = a, x, y
+				break
+			}
+		}
+		if arg == nil {
+			continue
+		}
+		tx := poss[len(poss)-1]
+		if gx := s.Field(tx, g.Name); gx == nil || fieldSig(gx) != fieldSig(g) {
+			continue
+		}
+		if o := othersFor(g, tx); len(o) > 0 {
+			req := s.RequiredArgsExcept(g.Arguments, arg.Name)
+			vs = append(vs, variant{"the same field with another argument value", sel(g, append(append([]*Arg{}, req...), NewArg(arg.Name, w1))), sel(g, append(append([]*Arg{}, req...), NewArg(arg.Name, w2))), tx, o})
+		}
+		break
+	}
+	type elem struct {
+		name string // role in the order description
+		on   string // type condition ("" = selected directly on the interface)
+		mk   func() *Selection
+	}
+	emit := func(v variant, order []elem, valid bool, op, class string) {
+		var names []string
+		for _, e := range order {
+			names = append(names, e.name)
+		}
+		where := strings.Join(names, ", ")
+		ctl := ""
+		if valid {
+			ctl = " (control)"
+		}
+		ins(RMerging, op+", order: "+where+", inline"+ctl, valid, class, func() ([]*Selection, []*Fragment) {
+			var out []*Selection
+			for _, e := range order {
+				if e.on == "" {
+					out = append(out, e.mk())
+				} else {
+					out = append(out, NewInline(e.on, e.mk()))
+				}
+			}
+			return out, nil
+		})
+		ins(RMerging, op+", order: "+where+", interface level inside an inline fragment on the interface"+ctl, valid, class, func() ([]*Selection, []*Fragment) {
+			var out []*Selection
+			for _, e := range order {
+				on := e.on
+				if on == "" {
+					on = parent
+				}
+				out = append(out, NewInline(on, e.mk()))
+			}
+			return out, nil
+		})
+		ins(RMerging, op+", order: "+where+", through named fragments"+ctl, valid, class, func() ([]*Selection, []*Fragment) {
+			var out []*Selection
+			var fr []*Fragment
+			for i, e := range order {
+				on := e.on
+				if on == "" {
+					on = parent
+				}
+				name := fmt.Sprintf("TW%d", i+1)
+				out = append(out, NewSpread(name))
+				fr = append(fr, &Fragment{Name: name, TypeCond: on, Sel: []*Selection{e.mk()}})
+			}
+			return out, fr
+		})
+	}
+	for _, v := range vs {
+		a := elem{"object type condition (identical)", v.others[0], v.same}
+		b := elem{"sibling object type condition (different)", v.tx, v.diff}
+		p := elem{"interface", "", v.same}
+		class := "three selections under one response name: identical on an object type condition and on the enclosing interface, " + v.what + " on a sibling object type condition"
+		for _, order := range [][]elem{{a, b, p}, {a, p, b}, {b, a, p}, {b, p, a}, {p, a, b}, {p, b, a}} {
+			emit(v, order, false, "three-way response name conflict", class)
+		}
+		// controls: all three identical; three sibling object type conditions without the interface level
+		bs := elem{"sibling object type condition (identical)", v.tx, v.same}
+		emit(v, []elem{a, bs, p}, true, "three identical selections under one response name", "three identical selections under one response name on two object type conditions and the enclosing interface")
+		if len(v.others) >= 2 {
+			c := elem{"second object type condition (identical)", v.others[1], v.same}
+			emit(v, []elem{a, b, c}, true, "three sibling object type conditions under one response name", "three selections under one response name on three different object type conditions, "+v.what+" on one of them")
+			class4 := "four selections under one response name: identical on two object type conditions and on the enclosing interface, " + v.what + " on a sibling object type condition"
+			for _, order := range [][]elem{{a, c, b, p}, {a, b, c, p}, {b, a, c, p}, {p, a, c, b}} {
+				emit(v, order, false, "four-way response name conflict", class4)
+			}
+		}
+	}
+}
